@@ -24,6 +24,12 @@ CFG = {
 }
 REC_KEYS = ("vals", "lens", "typs", "irefs", "nlive", "bad", "dead", "dup", "orph")
 ARR_KEYS = ("vals", "lens", "typs", "irefs")
+IDN_KEYS = ("vals", "lens", "typs")
+CKINDS = ("rec", "arr", "meta", "idn")
+
+
+def keys_of(api):
+    return {"arr": ARR_KEYS, "meta": ARR_KEYS, "idn": IDN_KEYS}.get(api, REC_KEYS)
 CAP_OPS = ("bufinsert", "bufset")
 
 
@@ -114,10 +120,18 @@ def event_sig(hist, events, k):
     return collapse(st["a"], why.lower(), trace_class(st, prev)), prev
 
 
+_BUILT = {}
+
+
 def build(api):
-    if api in ("rec", "arr"):
-        return vlib.build_driver("typedbuf", ["typedbuf.c"]), [api]
-    return vlib.build_driver("typedbuf_cxx", ["typedbuf_cxx.cpp", cow.build_seam()], libs=("mptcore", "mpt++"), cxx=True), []
+    """driver executable + arguments for an element kind / binding (built once; call before starting threads)"""
+    key = "c" if api in CKINDS else "cxx"
+    if key not in _BUILT:
+        if key == "c":
+            _BUILT[key] = vlib.build_driver("typedbuf", ["typedbuf.c"])
+        else:
+            _BUILT[key] = vlib.build_driver("typedbuf_cxx", ["typedbuf_cxx.cpp", cow.build_seam()], libs=("mptcore", "mpt++"), cxx=True)
+    return _BUILT[key], ([api] if key == "c" else [])
 
 
 def has_fail(beh):
@@ -140,23 +154,57 @@ def nontrivial(recs):
     return False
 
 
-def replay_kind(ck, api, behs, nt):
+def do_replay(api, behs):
+    """replay + comparison for one element kind / binding (thread safe: no bookkeeping on the Check)"""
     exe, args = build(api)
-    sel = [b for b in behs if api != "arr" or not has_fail(b)]
+    sel = [b for b in behs if api not in ("arr", "meta", "idn") or not has_fail(b)]
     recs, _ = vlib.run_driver(exe, vlib.to_script(sel), timeout=1500, args=args)
-    mms, stats = cow.compare(sel, recs, api, make_match(ARR_KEYS if api == "arr" else REC_KEYS), CAP_OPS)
+    mms, stats = cow.compare(sel, recs, api, make_match(keys_of(api)), CAP_OPS)
+    found = []
     for mm in mms:
         beh = sel[mm["b"]]
-        ck.violation(api + ":" + signature(mm, beh),
-                     {"binding": "A(replay,%s)" % api, "api": api, "behaviour": beh[:mm["i"] + 1], "step": mm["i"],
-                      "why": mm["why"], "record": mm["rec"]})
+        found.append((api + ":" + signature(mm, beh),
+                      {"binding": "A(replay,%s)" % api, "api": api, "behaviour": beh[:mm["i"] + 1], "step": mm["i"],
+                       "why": mm["why"], "record": mm["rec"]}))
     by = vlib.group_records(recs)
+    nt = set()
     for b, beh in enumerate(sel):
         if nontrivial(by.get(b, [])):
             nt.add(api + cow.seq_key(beh))
-    ck.cov["evaluations"] += len(sel)
-    ck.notes.setdefault("replay", {})[api] = dict(behaviours=len(sel), mismatches=len(mms), **stats)
-    return sel
+    mid = len(sel) // 2
+    return dict(api=api, found=found, nt=nt, note=dict(behaviours=len(sel), mismatches=len(mms), **stats),
+                samples=[vlib.sample_repr(b) for b in sel[mid:mid + 1]])
+
+
+def do_gen(cfgname, tag):
+    gen = vlib.tlc("Gen_TypedBuf", cfgname, workers=4, tag="Gen_TypedBuf_" + tag)
+    if gen.error or gen.violation:
+        raise vlib.MachineryError("behaviour export failed (%s): %s %s" % (cfgname, gen.error, gen.violation or ""))
+    behs = vlib.parse_behaviours(gen.out)
+    gen.out = ""
+    return behs, gen.generated, gen.distinct
+
+
+def do_gen_replay(api, cfgname):
+    behs, ngen, nst = do_gen(cfgname, api)
+    r = do_replay(api, behs)
+    r["note"].update(transitions=ngen, skeleton_states=nst)
+    return r
+
+
+def absorb(ck, r, nt):
+    for sig, detail in r["found"]:
+        ck.violation(sig, detail)
+    nt |= r["nt"]
+    ck.cov["evaluations"] += r["note"]["behaviours"]
+    ck.cov["transitions"] += r["note"].get("transitions", 0)
+    ck.notes.setdefault("replay", {})[r["api"]] = r["note"]
+
+
+def replay_kind(ck, api, behs, nt):
+    """single threaded variant used by development scripts"""
+    r = do_replay(api, behs)
+    absorb(ck, r, nt)
 
 
 # --------------------------------------------------------------------------
@@ -164,7 +212,7 @@ def replay_kind(ck, api, behs, nt):
 # --------------------------------------------------------------------------
 def gen_histories(ck, n, steps, kind, nh=4, nv=3):
     rng = ck.rng
-    caps = [4, 12, 20, 28] if kind == "rec" else [8, 24, 40, 56]
+    caps = [4, 12, 20, 28] if kind in ("rec", "idn") else [8, 24, 40, 56]
     behs = []
     for _ in range(n):
         beh = [{"a": "init", "arg": {"n": nh, "grane": 0, "nv": nv}}]
@@ -247,12 +295,15 @@ def gen_histories(ck, n, steps, kind, nh=4, nv=3):
     return behs
 
 
-def trace_kind(ck, kind, cfg, nt):
+def record_traces(ck, kind, cfg):
     exe, args = build(kind)
     hist = gen_histories(ck, cfg["nhist"], cfg["steps"], kind)
     recs, _ = vlib.run_driver(exe, vlib.to_script(hist), args=args)
-    events = vlib.merge_trace(hist, recs)
-    tcfg = "Trace_TypedBuf.cfg" if kind == "rec" else "Trace_TypedBuf_arr.cfg"
+    return hist, recs, vlib.merge_trace(hist, recs)
+
+
+def judge_traces(ck, kind, hist, recs, events, nt):
+    tcfg = "Trace_TypedBuf.cfg" if kind in ("rec", "idn") else "Trace_TypedBuf_arr.cfg"
     ok, matched, ngen, cuts = cow.validate_traces(ck, hist, events, "Trace_TypedBuf", tcfg, event_sig, "Trace_TypedBuf_" + kind,
                                                   {"api": kind})
     ck.cov["transitions"] += ngen
@@ -263,46 +314,66 @@ def trace_kind(ck, kind, cfg, nt):
     ck.cov["evaluations"] += len(hist)
     ck.notes.setdefault("trace", {})[kind] = dict(histories=len(hist), events=len(events), matched=matched, accepted=ok,
                                                  behaviours_cut_at_known_finding=cuts)
-    return hist, ok
+    return ok
+
+
+def trace_kind(ck, kind, cfg, nt):
+    hist, recs, events = record_traces(ck, kind, cfg)
+    return hist, judge_traces(ck, kind, hist, recs, events, nt)
+
+
+XAPIS = ("xtyped", "xunique")
 
 
 def run(tier):
+    from concurrent.futures import ThreadPoolExecutor
     cfg = CFG[tier]
     ck = vlib.Check(PID, tier)
-
-    # 1. constructions and destructions stated by the design balance with the elements held
-    res = vlib.tlc("MC_TypedBuf", cfg["mc"], coverage=False)
-    ck.add_tlc(res, "exhaustive " + cfg["mc"])
-
-    # 2. binding A: every transition of the control skeleton, both element kinds
-    gen = vlib.tlc("Gen_TypedBuf", cfg["gen"], workers=4)
-    if gen.error or gen.violation:
-        raise vlib.MachineryError("behaviour export failed: %s %s" % (gen.error, gen.violation))
-    behs = vlib.parse_behaviours(gen.out)
-    gen.out = ""
-    ck.cov["transitions"] += gen.generated
-    ck.notes["skeleton_states"] = gen.distinct
+    sfx = "_t" if tier == "thorough" else ""
+    build("rec")
+    build("xtyped")
+    tkinds = ("rec", "arr") if tier == "quick" else CKINDS
+    tr = {k: record_traces(ck, k, cfg) for k in tkinds}       # uses ck.rng: before the threads start
     nt = set()
-    replay_kind(ck, "rec", behs, nt)
-    replay_kind(ck, "arr", behs, nt)
+    with ThreadPoolExecutor(max_workers=4) as ex:
+        # 1. constructions and destructions stated by the design balance with the elements held
+        mcs = [("exhaustive " + cfg["mc"], ex.submit(vlib.tlc, "MC_TypedBuf", cfg["mc"], 8, tag="MC_TypedBuf_c"))]
+        if tier == "thorough":
+            for a in XAPIS:
+                mcs.append(("exhaustive MC_TypedBuf_%s.cfg" % a,
+                            ex.submit(vlib.tlc, "MC_TypedBuf", "MC_TypedBuf_%s.cfg" % a, 4, tag="MC_TypedBuf_" + a)))
+        # 2. binding A: every transition of the control skeleton; C with both element kinds, C++ containers
+        xreps = [ex.submit(do_gen_replay, a, "Gen_TypedBuf_%s%s.cfg" % (a, sfx)) for a in XAPIS]
+        behs, ngen, nst = do_gen(cfg["gen"], "c")
+        creps = [ex.submit(do_replay, k, behs) for k in CKINDS]
+        results = [f.result() for f in creps + xreps]
+        mcres = [(w, f.result()) for w, f in mcs]
+    for what, res in mcres:
+        ck.add_tlc(res, what)
+    ck.cov["transitions"] += ngen
+    ck.notes["skeleton_states"] = nst
+    samples = []
+    for r in results:
+        absorb(ck, r, nt)
+        samples += r["samples"]
 
     # 3. binding B: recorded executions at the production granularity
-    hist, ok1 = trace_kind(ck, "rec", cfg, nt)
-    hist2, ok2 = trace_kind(ck, "arr", cfg, nt)
-    ck.cov["traces_validated_against_impl"] = (len(hist) if ok1 else 0) + (len(hist2) if ok2 else 0)
+    oks = {k: judge_traces(ck, k, *tr[k], nt) for k in tkinds}
+    ck.cov["traces_validated_against_impl"] = sum(len(tr[k][0]) for k in oks if oks[k])
     ck.cov["distinct_nontrivial"] = len(nt)
     ck.cov["exhaustive"] = True
     ck.cov["rule"] = ("A: one behaviour per transition of the TLC state graph of TypedBuf under the view (handle 1: element count, "
                       "capacity, immutable, no-copy, type; other handles: type, shares-with-1), every call with every "
                       "position/count 0..MaxArg and each of the first two copy constructions failing, replayed with the recording "
-                      "element type and with the library's array traits; B: seeded histories over 4 handles at the production "
+                      "element type and with the library's array traits (C) and with typed_array/unique_array over a tracked "
+                      "class incl. buffer::trim/skip/copy/move (C++); B: seeded histories over 4 handles at the production "
                       "granularity, all handles released at the end, validated by TLC.  Non-trivial = a call destroyed at least one "
                       "element while others stayed alive (fini calls logged by the recording type) resp. changed an inner reference "
-                      "count (array kind); distinct by element kind + call sequence.")
-    ck.cov["samples"] = [vlib.sample_repr(b) for b in (behs[len(behs) // 2: len(behs) // 2 + 2] + [hist[0][:8]])]
+                      "count (array kind); distinct by element kind/binding + call sequence.")
+    ck.cov["samples"] = samples[:4] + [tr["rec"][0][0][:8]]
     ck.assumptions = ["TLC/SANY and the CommunityModules Json/IOUtils are correct",
-                      "drv/typedbuf.c records init/fini calls and reads slots without judgement",
-                      "buffer_alloc.c compiled into the driver at a scaled granularity is the allocator that ships",
+                      "drv/typedbuf.c and drv/typedbuf_cxx.cpp record init/fini calls and read slots without judgement",
+                      "buffer_alloc.c compiled into the drivers at a scaled granularity is the allocator that ships",
                       "element types other than the recording type, mpt_array_traits and the tracked C++ class are covered only "
                       "as far as they share these code paths",
                       "the exhaustive model is bounded (see MC cfg); beyond it coverage is by the seeded histories"]
@@ -320,12 +391,12 @@ def replay(path):
     exe, args = build(api)
     recs, err = vlib.run_driver(exe, vlib.to_script([beh]), args=args)
     if all("exp" in s for s in beh):
-        mms, _ = cow.compare([beh], recs, api, make_match(REC_KEYS if api == "rec" else ARR_KEYS), CAP_OPS)
+        mms, _ = cow.compare([beh], recs, api, make_match(keys_of(api)), CAP_OPS)
         for mm in mms:
             print("VIOLATION property=%s replay=%s  (%s: %s)" % (PID, path, signature(mm, beh), mm["why"]))
         return 1 if mms else 0
     events = vlib.merge_trace([beh], recs)
-    tcfg = "Trace_TypedBuf_arr.cfg" if api == "arr" else "Trace_TypedBuf.cfg"
+    tcfg = "Trace_TypedBuf_arr.cfg" if api in ("arr", "meta") else "Trace_TypedBuf.cfg"
     ok, matched, _ = vlib.validate_trace("Trace_TypedBuf", events, cfg=tcfg, tag="Trace_TypedBuf_replay", xss="1g")
     if not ok:
         print("VIOLATION property=%s replay=%s  (trace rejected at event %d: %s)" %
